@@ -10,6 +10,7 @@ import XsdataModel.Codegen.Pipeline
 import XsdataModel.Codegen.Circular
 import XsdataModel.Codegen.Styles
 import XsdataModel.Codegen.Cache
+import XsdataModel.Codegen.Overrides
 open Lean Proto Py Xs.Codegen
 
 namespace OpsCodegen
@@ -241,6 +242,25 @@ def run (op : String) (a : Json) : Option (Except String Json) :=
       -- the mapped classes are abstracted to "which (uris, package) they were mapped from"
       let raw : List Str → Str → List Str := fun u p => u ++ [p]
       pure <| ok (jList (jList jStr) (runHistory true raw [] runs))
+  | "gen.overrides" => some do
+      let st ← (← getArr a "classes").mapM (fun c => do
+        let attrs ← (← getArr c "attrs").mapM (fun x => do
+          pure ({ name := ← getStr x "name", isAttribute := ← getBool x "attribute", ns := ← getOptStr x "ns",
+                  minOccurs := ← getNat x "min", maxOccurs := ← getNat x "max", sig := ← getNat x "sig",
+                  anyType := ← getBool x "any" } : OAttr))
+        let base ← match c.getObjValD "base" with
+          | .null => pure none
+          | j => match j.getNat? with
+            | .ok n => pure (some n)
+            | .error _ => .error "bad base"
+        pure ({ attrs := attrs, base := base } : OClass))
+      let order ← (← getArr a "order").mapM (fun j => match j.getNat? with
+        | .ok n => .ok n
+        | .error _ => .error "expected nat")
+      let clean ← strPairs (a.getObjValD "clean_uri")
+      let cleanUri : Str → Str := fun u => ((clean.find? (·.1 == u)).map (·.2)).getD u
+      let out := runOverrides cleanUri st order
+      pure <| ok (jList (fun c => jList (fun x => Json.arr #[jStr x.name, jNat x.minOccurs, jNat x.maxOccurs]) c.attrs) out)
   | "gen.process_order" => some do
       let us ← strPairs (a.getObjValD "uris")
       let classify : Str → ResType := fun u => ((us.find? (·.1 == u)).map (fun p => resType p.2)).getD .unknown
